@@ -13,6 +13,7 @@ package main
 import (
 	"fmt"
 	"math/rand"
+	"regexp"
 	"sort"
 	"strings"
 
@@ -264,17 +265,44 @@ func (h *histState) step(op string) string {
 		h.sb.Rename(m)
 		return "ok"
 	case "renamere":
-		// fixed regexes only (regexp is an external): suffix/prefix rewriting
+		// regexp is an external: the value of ReplaceAllString for the name of every row, in order, is computed here
+		// (before the call, on the names as iteration shows them) and handed to the model in the status (`{=n1=n2...}`,
+		// `{!}` when the expression does not compile); the model applies what the method does with those names
+		re, repl := pctDec(f[1]), pctDec(f[2])
+		olds := []string{}
+		h.sb.IterateChar(func(name string, s []uint8) bool {
+			olds = append(olds, name)
+			return false
+		})
+		ext := "!"
+		if r, cerr := regexp.Compile(re); cerr == nil {
+			ext = ""
+			for _, o := range olds {
+				ext += "=" + pctEnc(r.ReplaceAllString(o, repl))
+			}
+		}
 		m := map[string]string{}
-		err := h.sb.RenameRegexp(pctDec(f[1]), pctDec(f[2]), m)
+		err := h.sb.RenameRegexp(re, repl, m)
+		// the name map in order of first occurrence of the old names, then (never expected) any other key, sorted
 		keys := []string{}
+		done := map[string]bool{}
+		for _, o := range olds {
+			if v, ok := m[o]; ok && !done[o] {
+				done[o] = true
+				keys = append(keys, pctEnc(o)+"="+pctEnc(v))
+			}
+		}
+		rest := []string{}
 		for k, v := range m {
-			keys = append(keys, pctEnc(k)+"="+pctEnc(v))
 			h.addProbe(k)
 			h.addProbe(v)
+			if !done[k] {
+				rest = append(rest, "!"+pctEnc(k)+"="+pctEnc(v))
+			}
 		}
-		sort.Strings(keys)
-		return errs(err) + "[" + strings.Join(keys, ",") + "]"
+		sort.Strings(rest)
+		keys = append(keys, rest...)
+		return errs(err) + "[" + strings.Join(keys, ",") + "]{" + ext + "}"
 	case "appendid":
 		h.sb.AppendSeqIdentifier(pctDec(f[1]), atob(f[2]))
 		return "ok"
@@ -393,6 +421,8 @@ func (h *histState) step(op string) string {
 	case "autoalpha":
 		h.sb.AutoAlphabet()
 		return "ok"
+	case "setalpha":
+		return errs(h.sb.SetAlphabet(atoi(f[1])))
 	case "unalign":
 		h.sb = h.sb.Unalign()
 		h.al = nil
